@@ -29,6 +29,52 @@ open Polar Polar.LinAlg
 
 namespace Polar.Synth
 
+/-- hypothesis on the law table: every draw of the block has the specification moments -/
+def LawOK (law : Atom → List (Rat × Rat)) (b : List SStmt) : Prop :=
+  ∀ x a, SStmt.draw x a ∈ b → ∀ k, finiteMoment (law a) k = mom a k
+
+/-! ### tiny unsolvable loops used by the non-vacuity examples and the counterexamples -/
+
+/-- deterministic assignment -/
+def det1 (v : MPoly) : List (MPoly × MPoly) := [(v, MPoly.one)]
+
+/-- `tests/unsolvable_benchmarks/squares.prob`:
+    `z = 0; while true: z = 1 - z; x = 2*x + y**2 + z; y = 2*y - y**2 + 2*z end` -/
+def squares : SProg :=
+  { init := [.assign "z" (det1 [])],
+    body := [.assign "z" (det1 [([], 1), ([("z", 1)], -1)]),
+             .assign "x" (det1 [([("x", 1)], 2), ([("y", 2)], 1), ([("z", 1)], 1)]),
+             .assign "y" (det1 [([("y", 1)], 2), ([("y", 2)], -1), ([("z", 1)], 2)])] }
+
+/-- the loop `SolvLoopSynthesizer` returns for it (with `_u = 3`, `x0 = 3`, `y0 = 5`):
+    `t = 0; s = 8; z = t; while true: t = 1 - z; s = 2*s + 3 - 3*z; z = t end` -/
+def squaresSynth : SProg :=
+  { init := [.assign "t" (det1 []), .assign "s" (det1 [([], 8)]), .assign "z" (det1 [([("t", 1)], 1)])],
+    body := [.assign "t" (det1 [([], 1), ([("z", 1)], -1)]),
+             .assign "s" (det1 [([("s", 1)], 2), ([], 3), ([("z", 1)], -3)]),
+             .assign "z" (det1 [([("t", 1)], 1)])] }
+
+/-- a probabilistic variant: the non-linear term is switched by a Bernoulli coefficient and the effective
+    part is chosen by a probabilistic choice:
+    `while true: b = Bernoulli(1/2); x = x + b*y**2 + 1 {1/2} x + b*y**2; y = y - b*y**2 end` -/
+def bern : Atom := ⟨"Bernoulli", [1 / 2]⟩
+def coin : SProg :=
+  { init := [],
+    body := [.draw "b" bern,
+             .assign "x" [([([("x", 1)], 1), ([("b", 1), ("y", 2)], 1), ([], 1)], [([], 1 / 2)]),
+                          ([([("x", 1)], 1), ([("b", 1), ("y", 2)], 1)], [([], 1 / 2)])],
+             .assign "y" (det1 [([("y", 1)], 1), ([("b", 1), ("y", 2)], -1)])] }
+
+def noLaw : Atom → List (Rat × Rat) := fun _ => []
+/-- the true law of `Bernoulli(1/2)` -/
+def bernLaw : Atom → List (Rat × Rat) := fun a => if a = bern then [(1 / 2, 1), (1 / 2, 0)] else []
+
+def Qxy : MPoly := [([("x", 1)], 1), ([("y", 1)], 1)]
+def σ35 : St := fun v => if v = "x" then 3 else if v = "y" then 5 else 0
+
+theorem lawOK_squares_body : LawOK noLaw squares.body := by intro x a hm; simp [squares] at hm
+theorem lawOK_squares_init : LawOK noLaw squares.init := by intro x a hm; simp [squares] at hm
+
 /-! ### expectations of weighted outcome lists -/
 
 theorem EW_nil (f : St → Rat) : EW [] f = 0 := rfl
@@ -148,10 +194,6 @@ theorem wpDraw_sound (law : Atom → List (Rat × Rat)) (x : String) (a : Atom)
       rw [MPoly.eval_cons, Mono.eval_upd]; ring
     rw [this, wsum_linear, ← finiteMoment_eq_wsum, hlaw]; ring
 
-/-- hypothesis on the law table: every draw of the block has the specification moments -/
-def LawOK (law : Atom → List (Rat × Rat)) (b : List SStmt) : Prop :=
-  ∀ x a, SStmt.draw x a ∈ b → ∀ k, finiteMoment (law a) k = mom a k
-
 theorem wpStmt_sound (law : Atom → List (Rat × Rat)) (s : SStmt) (hs : LawOK law [s]) (q : MPoly) (σ : St) :
     EW (execS law s σ) (fun τ => MPoly.eval τ q) = MPoly.eval σ (wpStmt s q) := by
   cases s with
@@ -175,6 +217,21 @@ theorem oneStep_sound (law : Atom → List (Rat × Rat)) (body : List SStmt) (h 
     have e2 : oneStepPoly (s :: rest) q = wpStmt s (oneStepPoly rest q) := rfl
     rw [e1, e2, EW_bindW, EW_congr _ (fun τ => ih hrest q τ)]
     exact wpStmt_sound law s hs _ σ
+
+/-- non-vacuity: the Bernoulli law table satisfies `LawOK` for the probabilistic loop (all moments) … -/
+theorem lawOK_coin : LawOK bernLaw coin.body := by
+  intro x a hm k
+  have ha : a = bern := by
+    have : x = "b" ∧ a = bern := by simpa [coin] using hm
+    exact this.2
+  subst ha
+  cases k with
+  | zero => decide +kernel
+  | succ k => simp [bernLaw, finiteMoment, mom, momentSpec, bern, bernoulliMoment]
+
+/-- … and the operator computes what it should there: `E(x + y)` after one iteration is `x + y + 1/2`. -/
+example : MPoly.normalize (oneStepPoly coin.body Qxy) = [([], 1 / 2), ([("x", 1)], 1), ([("y", 1)], 1)] := by
+  decide +kernel
 
 /-! ### moments along the run -/
 
@@ -223,6 +280,10 @@ theorem c14_invariant_sound {K : Type*} [CommRing K] (u r : ℕ → K) (k q₀ :
     have : n + 1 - 1 - n = 0 := by omega
     rw [this]; ring
 
+/-- non-vacuity: `u(n) = 2^(n+1) − 1` satisfies `u(n+1) = 2·u(n) + 1`, `u(0) = 1` -/
+example : ∃ u r : ℕ → ℤ, u 0 = 1 ∧ ∀ n, u (n + 1) = 2 * u n + r n :=
+  ⟨fun n => 2 ^ (n + 1) - 1, fun _ => 1, by norm_num, fun n => by ring⟩
+
 /-- the same sum in the index order of the code: `Σ_{j=0}^{n−1} k^j · inhom(n − j)` with
 `inhom(m) = r(m − 1)` (the `n ↦ n − 1` shift of `__solve_effective_part__`) -/
 theorem c14_summation_as_coded {K : Type*} [CommRing K] (r : ℕ → K) (k : K) (n : ℕ) :
@@ -244,6 +305,15 @@ theorem c14_any_solution_ok (law : Atom → List (Rat × Rat)) (P : SProg) (h : 
   rw [momentS_succ law P h, ← momentS_add_scale]
   apply momentS_congr
   simpa [checkSynth] using hc
+
+/-- non-vacuity on the suite's `squares.prob`: `Q = x + y`, `k = 2`, `R = 3 − 3z` pass the check
+(deterministic loop, no draws) … -/
+example : LawOK noLaw squares.body ∧ checkSynth squares.body Qxy 2 [([], 3), ([("z", 1)], -3)] = true :=
+  ⟨lawOK_squares_body, by decide +kernel⟩
+
+/-- … and on the probabilistic loop `coin` with the true Bernoulli law: `Q = x + y`, `k = 1`, `R = 1/2`. -/
+example : LawOK bernLaw coin.body ∧ checkSynth coin.body Qxy 1 [([], 1 / 2)] = true :=
+  ⟨lawOK_coin, by decide +kernel⟩
 
 /-- **C14 for invariants**: identity + summation: `E(Q)(n) = kⁿ·E(Q)(0) + Σ_{j<n} k^{n−1−j}·E(R)(j)`. -/
 theorem c14_invariant_closed_form (law : Atom → List (Rat × Rat)) (P : SProg) (h : LawOK law P.body)
@@ -316,6 +386,10 @@ theorem system_sound (law : Atom → List (Rat × Rat)) (P : SProg) (hb : LawOK 
     exact List.map_congr_left (fun p _ => momentS_zero law P hi p σ₀)
   | succ n ih => rw [system_step law P hb elems A hc, ih]; rfl
 
+/-- non-vacuity: `[x + y, 1, z]` is closed for `squares.prob` with the matrix below -/
+example : checkSystem squares.body [Qxy, [([], 1)], [([("z", 1)], 1)]] [[2, 3, -3], [0, 1, 0], [0, 1, -1]] = true := by
+  decide +kernel
+
 /-- **C14 for the returned closed form, every n.**  If the system with first component `Q` passes
 `checkSystem` and the executable window check `cfiniteCheck` accepts the exponential polynomial `f` against
 it, then `E(Q(state_n)) = f(n)` for **every** `n`. -/
@@ -329,6 +403,14 @@ theorem synth_closed_form_sound (law : Atom → List (Rat × Rat)) (P : SProg) (
   rw [h1, ← h2]
   simp
 
+/-- non-vacuity, the whole chain on `squares.prob` at `x0 = 3, y0 = 5`: the closed form Polar returns for
+`x + y` (here `−(−1)ⁿ/2 + 10·2ⁿ − 3/2`) is accepted, hence `E(x + y)(n)` equals it for every `n`. -/
+example (n : Nat) : momentS noLaw squares Qxy n σ35 =
+    expPolyEval [⟨-1 / 2, 0, -1⟩, ⟨10, 0, 2⟩, ⟨-3 / 2, 0, 1⟩] n :=
+  synth_closed_form_sound noLaw squares lawOK_squares_body lawOK_squares_init Qxy
+    [[([], 1)], [([("z", 1)], 1)]] [[2, 3, -3], [0, 1, 0], [0, 1, -1]] (by decide +kernel) σ35 _ 6
+    (by decide +kernel) n
+
 /-- **C14, loop equivalence.**  `elems` are polynomials over the source loop `P` (the images of the
 synthesised loop's variables and monomials: retained variables, and `Q` for the fresh variable `s`),
 `elems'` the corresponding monomials of the synthesised loop `P'`.  If both lists are closed under their
@@ -341,5 +423,80 @@ theorem c14_loop_equiv (law : Atom → List (Rat × Rat)) (P P' : SProg)
     (hv : initVec P.init elems σ₀ = initVec P'.init elems' σ₀') (n : Nat) :
     elems.map (fun p => momentS law P p n σ₀) = elems'.map (fun p => momentS law P' p n σ₀') := by
   rw [system_sound law P hb hi elems A hc σ₀ n, system_sound law P' hb' hi' elems' A hc' σ₀' n, hv]
+
+/-- non-vacuity: the loop synthesised for `squares.prob` (fresh variable `s` for `x + y`, retained `z`)
+against the source: same matrix, same initial vector, hence `E(x + y)(n) = s(n)` and `z(n) = z(n)` for all n -/
+example (n : Nat) :
+    [Qxy, [([], 1)], [([("z", 1)], 1)]].map (fun p => momentS noLaw squares p n σ35) =
+      [[([("s", 1)], 1)], [([], 1)], [([("z", 1)], 1)]].map (fun p => momentS noLaw squaresSynth p n σ35) :=
+  c14_loop_equiv noLaw squares squaresSynth lawOK_squares_body lawOK_squares_init
+    (by intro x a hm; simp [squaresSynth] at hm) (by intro x a hm; simp [squaresSynth] at hm)
+    _ _ [[2, 3, -3], [0, 1, 0], [0, 1, -1]] (by decide +kernel) (by decide +kernel) σ35 σ35 (by decide +kernel) n
+
+/-! ### what the code gets wrong (known findings F140, F141) — concrete witnesses, replayed on the real
+code by the corpus cases of `harness/checks/c14.py`
+
+Full statement of C14 for the code: *every* returned pair `(Q, f)` has `E(Q(state_n)) = f(n)` for all `n`, and every
+synthesised loop reproduces `E(Q)` in its fresh variable.  The validator theorems above are the `_partial` forms: they
+need the *exact* values `E(R)(j)` (`c14_invariant_closed_form`) resp. the same closure matrix including the non-linear
+effective monomials (`c14_loop_equiv`).  The code violates both in the situations below. -/
+
+/-- `n`-fold one-step operator -/
+def stepN (body : List SStmt) : Nat → MPoly → MPoly
+  | 0, q => q
+  | n + 1, q => stepN body n (oneStepPoly body q)
+
+/-- `E(Q)(n)` is the value at `σ₀` of the `n`-fold one-step polynomial pushed through the init block -/
+theorem momentS_iterate (law : Atom → List (Rat × Rat)) (P : SProg) (hb : LawOK law P.body) (hi : LawOK law P.init)
+    (σ₀ : St) (n : Nat) : ∀ q, momentS law P q n σ₀ = MPoly.eval σ₀ (oneStepPoly P.init (stepN P.body n q)) := by
+  induction n with
+  | zero => intro q; exact momentS_zero law P hi q σ₀
+  | succ n ih => intro q; rw [momentS_succ law P hb, ih]; rfl
+
+/-- F140 minimal program: `while true: x = x + y**2 + z; y = y - y**2; z = 1 end` -/
+def initCase : SProg :=
+  { init := [],
+    body := [.assign "x" (det1 [([("x", 1)], 1), ([("y", 2)], 1), ([("z", 1)], 1)]),
+             .assign "y" (det1 [([("y", 1)], 1), ([("y", 2)], -1)]),
+             .assign "z" (det1 [([], 1)])] }
+
+def σz5 : St := fun v => if v = "z" then 5 else 0
+
+/-- **F140.**  Polar prints `x + y = n + x0 + y0` for `initCase`.  With `x0 = y0 = 0`, `z0 = 5` the loop has
+`x + y = 5` after one iteration, the printed closed form gives `1` (the initial value of the effective variable
+`z`, read before it is assigned, is lost when `solve_rec_by_summing` strips the `Piecewise`). -/
+theorem c14_counterexample_initial_case :
+    momentS noLaw initCase Qxy 1 σz5 = 5 ∧ ((1 : Rat) + σz5 "x" + σz5 "y" = 1) := by
+  refine ⟨?_, by decide +kernel⟩
+  rw [momentS_iterate noLaw initCase (by intro x a hm; simp [initCase] at hm)
+    (by intro x a hm; simp [initCase] at hm)]
+  decide +kernel
+
+/-- F141 minimal program: `z = 0; while true: z = z + 1 {1/2} z - 1; x = x + y**2 + z**2; y = y - y**2 end` -/
+def walkSrc : SProg :=
+  { init := [.assign "z" (det1 [])],
+    body := [.assign "z" [([([("z", 1)], 1), ([], 1)], [([], 1 / 2)]), ([([("z", 1)], 1), ([], -1)], [([], 1 / 2)])],
+             .assign "x" (det1 [([("x", 1)], 1), ([("y", 2)], 1), ([("z", 2)], 1)]),
+             .assign "y" (det1 [([("y", 1)], 1), ([("y", 2)], -1)])] }
+
+/-- the loop `SolvLoopSynthesizer.synth_loop` returns for it (`_u = 1`, `x0 = y0 = 0`):
+    `t = 0; s = 0; z = t; while true: t = z; s = s + 1 + z**2; z = t end` -/
+def walkSynth : SProg :=
+  { init := [.assign "t" (det1 []), .assign "s" (det1 []), .assign "z" (det1 [([("t", 1)], 1)])],
+    body := [.assign "t" (det1 [([("z", 1)], 1)]),
+             .assign "s" (det1 [([("s", 1)], 1), ([], 1), ([("z", 2)], 1)]),
+             .assign "z" (det1 [([("t", 1)], 1)])] }
+
+/-- **F141.**  After two iterations `E(x + y) = 3` in the source (`E(z₁²) + E(z₂²) = 1 + 2`), the fresh
+variable of the synthesised loop holds `2`: the loop squares the *mean* of the random walk. -/
+theorem c14_counterexample_loop :
+    momentS noLaw walkSrc Qxy 2 (fun _ => 0) = 3 ∧ momentS noLaw walkSynth [([("s", 1)], 1)] 2 (fun _ => 0) = 2 := by
+  constructor
+  · rw [momentS_iterate noLaw walkSrc (by intro x a hm; simp [walkSrc] at hm)
+      (by intro x a hm; simp [walkSrc] at hm)]
+    decide +kernel
+  · rw [momentS_iterate noLaw walkSynth (by intro x a hm; simp [walkSynth] at hm)
+      (by intro x a hm; simp [walkSynth] at hm)]
+    decide +kernel
 
 end Polar.Synth
